@@ -87,8 +87,39 @@ def run_c14(repo):
             break
     obls.append({'name': 'codec.homomorphism_sampled', 'kind': 'sampled', 'status': 'failed' if hom_bad else 'discharged',
                  'detail': '20000 random pairs: T(a+b) == T(a)+T(b) (assumed in general; sampled here)'})
+    # title(): canonical spelling of the names withheld for 204/304 (used by the VC BaseResponse.headerlist:emit.filter_is_blacklist_by_title,
+    # where str.title() is uninterpreted): every case variant of a forbidden name has that name as its title(), and on ASCII text
+    # title() changes nothing but case (all 128 x 128 two-character strings: the image of a character depends only on whether the
+    # character before it is cased), so an ASCII name has a forbidden title() iff it is a case variant of the forbidden name.
+    import itertools
+    from contracts.headerlist import FORBIDDEN
+    tbad = None
+    nvar = 0
+    for T in sorted({n for names in FORBIDDEN.values() for n in names}):
+        letters = [i for i, ch in enumerate(T) if ch.isalpha()]
+        for mask in range(1 << len(letters)):
+            x = list(T.lower())
+            for b, i in enumerate(letters):
+                if mask >> b & 1:
+                    x[i] = x[i].upper()
+            nvar += 1
+            if ''.join(x).title() != T:
+                tbad = ''.join(x)
+                break
+        if tbad:
+            break
+    if not tbad:
+        for a, b in itertools.product(range(128), repeat=2):
+            s2 = chr(a) + chr(b)
+            t2 = s2.title()
+            if len(t2) != 2 or t2.lower() != s2.lower():
+                tbad = s2
+                break
+    obls.append({'name': 'title.canonical_for_forbidden_names', 'status': 'failed' if tbad else 'discharged',
+                 'detail': f'{nvar} case variants of the forbidden names + 16384 two-character ASCII strings (complete); counterexample: {tbad!r}'})
     return {'obligations': obls, 'assumptions': [
         'UTF-8 and Latin-1 codecs are concatenation homomorphisms on valid input (Python semantics; sampled, not proved)',
+        'str.title() on ASCII text is local: the image of a character depends only on whether the previous character is cased',
         'per-code-point codec lemma is decided by complete native enumeration of the 1,112,064 scalar values'],
         'problems': [], 'wall_s': round(time.time() - t0, 2)}
 
